@@ -28,11 +28,19 @@ ANCHORS = [
     "acnportal.contrib.acnsim.network.stochastic_network:StochasticNetwork.post_charging_update",
     "acnportal.contrib.acnsim.network.stochastic_network:StochasticNetwork.available_evses",
 ]
-REQUIRED = ["runs_under_warnings_as_errors", "second_runs_on_the_network_object_of_the_first", "networks_built_without_mentioning_early_departure", "calls:plugin", "calls:unplug", "calls:post_update", "walks", "placed_on_free_station", "enqueued", "admitted_from_queue",
+REQUIRED = ["runs_under_warnings_as_errors", "arrivals_refused_by_the_users_own_ev_class", "second_runs_on_the_network_object_of_the_first", "networks_built_without_mentioning_early_departure", "calls:plugin", "calls:unplug", "calls:post_update", "walks", "placed_on_free_station", "enqueued", "admitted_from_queue",
             "departed_while_waiting", "early_departures", "late_unplug_of_early_leaver", "runs_completed", "replays_compared", "xproc_runs_compared", "energy_ledgers_checked",
             "arrivals_delivered_in_the_legacy_two_argument_form", "runs_with_cars_connected_by_hand_before_the_run", "early_option_given_as:np", "early_option_given_as:int", "early_option_given_as:attr", "regime:early-on", "regime:early-off", "regime:more-sessions-than-stations", "regime:simultaneous-departure-connected-and-waiting",
             "distinct_station_choices"]
 BUDGET_S = {"quick": 240, "thorough": 3000}
+
+
+def _alone(rng, sessions):
+    """A session whose arrival is the only event of its period (an arrival that fails takes the rest of its period's events with
+    it on the unchanged simulator: that is the simulator's event loop, not the car park)."""
+    times = [s_["arrival"] for s_ in sessions] + [s_["departure"] for s_ in sessions]
+    c = [s_["id"] for s_ in sessions if times.count(s_["arrival"]) == 1 and s_["arrival"] > 0]
+    return rng.choice(c) if c else None
 
 
 def gen_history(rng):
@@ -69,7 +77,8 @@ def gen_history(rng):
             "sessions": sessions, "recompute": [], "scheduler": sd, "np_seed": 0, "early": rng.random() < 0.55,
             "early_as": rng.choice(["bool", "bool", "np", "int", "attr"]), "verbose": rng.random() < 0.3,
             "legacy_plugin": rng.random() < 0.12,
-            "hold_back": ([s_["id"] for s_ in sessions if s_["arrival"] == 0][:2] if rng.random() < 0.12 else [])}
+            "hold_back": ([s_["id"] for s_ in sessions if s_["arrival"] == 0][:2] if rng.random() < 0.12 else []),
+            "sticky": _alone(rng, sessions) if rng.random() < 0.15 else None}
 
 
 def cases(seed, tier):
@@ -163,6 +172,23 @@ def monitored_run(d, rseed, obs, judge=True, network=None, strict=False):
         from vlib.monitors import poke
         poke(net, sim)
         poke(sim.event_queue)
+    sticky_sid = None
+    refused_arrivals = set()
+    if d.get("sticky") is not None and not strict:
+        # one car is of the user's own EV class, which insists on always having a space (update_station_id(None) raises): when it
+        # arrives at a full car park its arrival fails
+        from acnportal.acnsim.models import EV as _EV
+
+        class SpaceBoundEV(_EV):
+            def update_station_id(self, station_id):
+                if station_id is None:
+                    raise ValueError("an EV of this class must always have a station")
+                super().update_station_id(station_id)
+
+        for e_ in evs:
+            if e_.session_id == d["sticky"]:
+                e_.__class__ = SpaceBoundEV
+                sticky_sid = e_.session_id
     stations = list(net.station_ids)
     sh = Shadow(stations)
     if network is not None:  # the counters of a network that served before go on counting
@@ -249,6 +275,13 @@ def monitored_run(d, rseed, obs, judge=True, network=None, strict=False):
         sid = ctx["sid"]
         if exc is not None and strict and isinstance(exc, Warning):
             half_done(f"plugin({sid}) raised {type(exc).__name__} in period {sim.iteration}", [sid])
+            return
+        if exc is not None and sid == sticky_sid and "must always have a station" in str(exc):
+            # the user's own EV class refused to be parked without a space: the arrival failed, the caller goes on without that
+            # car - it is nowhere (not connected, not waiting) and everybody else is where they were
+            obs.ev("arrivals_refused_by_the_users_own_ev_class")
+            refused_arrivals.add(sid)
+            walk(f"after plugin({sid}) was refused by the car's own class in period {sim.iteration}")
             return
         if exc is not None:
             obs.violate("plugin_raised", f"plugin({sid}) raised {type(exc).__name__}: {exc}", **wit)
@@ -404,12 +437,20 @@ def monitored_run(d, rseed, obs, judge=True, network=None, strict=False):
     try:
         with warnings.catch_warnings():
             warnings.simplefilter("error" if strict else "ignore")
-            sim.run()
+            for attempt in range(3):
+                try:
+                    sim.run()
+                    break
+                except ValueError as e_:
+                    if sticky_sid is None or "must always have a station" not in str(e_) or attempt == 2:
+                        raise
+                    # (the caller catches the failure of that one arrival and continues the run)
     except Exception as e:
         exc = e
     finally:
         for w in reversed(wraps):
             w.remove()
+    sim._verif_refused = refused_arrivals
     sim._verif_posts = posts["n"]
     sim._verif_evs = list(evs)
     return sim, sh, log, exc
@@ -476,7 +517,7 @@ def run_case(case, obs):
     wit = dict(scenario=d, rseed=rseed)
     strict = rseed % 6 == 1
     if strict:
-        d = dict(d, legacy_plugin=False, hold_back=[])  # (no call forms for which the library itself announces a deprecation)
+        d = dict(d, legacy_plugin=False, hold_back=[], sticky=None)  # (no call forms for which the library itself announces a deprecation)
         wit = dict(scenario=d, rseed=rseed, warnings_as_errors=True)
     sim, sh, log, exc = monitored_run(d, rseed, obs, strict=strict)
     obs.regime("regime:early-on" if d["early"] else "regime:early-off")
@@ -495,7 +536,7 @@ def run_case(case, obs):
     left = {s: net.get_ev(s).session_id for s in net.station_ids if net.get_ev(s) is not None}
     if left or len(net.waiting_queue):
         obs.violate("not_empty_after_run", f"stations {left} waiting {list(net.waiting_queue)}", **wit)
-    sids = {s["id"] for s in d["sessions"]}
+    sids = {s["id"] for s in d["sessions"]} - set(getattr(sim, "_verif_refused", ()))
     if sh.arrived != sids or sh.gone != sids:
         obs.violate("session_never_arrived_or_never_left", f"arrived {sorted(sh.arrived)} gone {sorted(sh.gone)} expected {sorted(sids)}", **wit)
     by_hand = set(d.get("hold_back") or [])  # connected by hand before the run: never seen by the simulator as arrivals
